@@ -105,6 +105,20 @@ class Unmergeable(Exception):
     pass
 
 
+FALLBACK = object()     # a model may return this to have the function executed from its SSA after all
+
+
+def aux_same(a, b):
+    if a is b:
+        return True
+    if len(a) != len(b):
+        return False
+    for k, v in a.items():
+        if b.get(k) is not v:
+            return False
+    return True
+
+
 class LazyCond:
     """the condition under which the first of two merged states is the live one, built on demand"""
     __slots__ = ('g', 'v')
@@ -522,7 +536,7 @@ class Interp:
             else:
                 t = OBJTYPE.get(k) if not isinstance(k, str) else self.prog.globals[k]['elem']
                 nh[k] = self.merge_value(c, v1, v2, t)
-        if s1.aux != s2.aux:
+        if not aux_same(s1.aux, s2.aux):
             raise Unmergeable('aux')
         return c, nh
 
@@ -607,21 +621,21 @@ class Interp:
                     m = st.model if (st.model is not None and eval_bool(st.model, c) is True) else None
                     out.append((c, m, pay, r[1]))
                     continue
-                pend.append((c, pay))
+                pend.append((c, pay, r[1] if r[0] == 'conj' else None))
             witnessed = None
             if st.model is not None:
-                for i, (c, pay) in enumerate(pend):
+                for i, (c, pay, ref) in enumerate(pend):
                     if eval_bool(st.model, c) is True:
                         witnessed = i
                         break
-            for i, (c, pay) in enumerate(pend):
+            for i, (c, pay, ref) in enumerate(pend):
                 if i == witnessed:
                     self.ctx.stats['witnessed'] += 1
-                    out.append((c, st.model, pay, 'mv'))
+                    out.append((c, st.model, pay, ('mv', ref)))
                 else:
                     m = self.ctx.check(st.guard + (c,))
                     if m is not None:
-                        out.append((c, m, pay, 'mv'))
+                        out.append((c, m, pay, ('mv', ref)))
         res = []
         for j, (c, m, pay, ref) in enumerate(out):
             if j == len(out) - 1:
@@ -632,8 +646,10 @@ class Interp:
             else:
                 self.stats['forks'] += 1
                 s2 = st.fork(c, m)
-            if ref == 'mv':
+            if type(ref) is tuple and ref[0] == 'mv':
                 s2.mvars = s2.mvars | frozenset(v for v in domains.free_vars(c) if v is not None)
+                if ref[1]:
+                    s2.dom.update(ref[1])      # the condition is in the guard: narrowing the domains stays sound
             elif ref:
                 s2.dom.update(ref)
             res.append((s2, pay))
@@ -969,7 +985,9 @@ class Interp:
         """run function fid; returns a list of Outcome"""
         m = self.models.get(fid)
         if m is not None:
-            return self.call_model(m, fid, args, st)
+            r = self.call_model(m, fid, args, st)
+            if r is not FALLBACK:
+                return r
         f = self.prog.funcs.get(fid)
         if f is None:
             raise Unsupported('function not exported: ' + fid)
@@ -1003,6 +1021,8 @@ class Interp:
             r = m(self, st, args)
         except GoPanic as p:
             return [Outcome(st, 'panic', p.msg)]
+        if r is FALLBACK:
+            return FALLBACK
         return self.resolve(st, r)
 
     def call_value(self, fv, args, st):
@@ -1297,7 +1317,7 @@ class Interp:
                         for k_, v_ in h1.items():
                             if h2.get(k_) is not v_:
                                 raise Unmergeable('heap')
-                        if m.st.aux != o.st.aux:
+                        if not aux_same(m.st.aux, o.st.aux):
                             raise Unmergeable('aux')
                         c = LazyCond(m.st.guard[self._common(m.st.guard, o.st.guard):])
                         nh = h1
